@@ -178,6 +178,9 @@ func runPty(pg *PtyProg) ([]Event, error) {
 			}
 		}
 		fmt.Sscanf(raw[m[2]:m[3]], "%d", &cuu)
+		if cuu < 1 {
+			cuu = 1 // terminals execute "cursor up 0" as "cursor up 1" (the parameter's default)
+		}
 		pos = m[1]
 	}
 	if pos < len(raw) {
